@@ -1,5 +1,6 @@
 """C14 - Distances are SNP counts over shared k-mers plus k-mer set mismatch."""
 import random
+import shutil
 from fractions import Fraction
 
 from .. import gen as G
@@ -10,7 +11,7 @@ ID = 'C14'
 LEVEL = 'exploration'
 BUDGET = {'quick': 150, 'thorough': 1800}
 CHUNK = 2
-RULE = ('Cases: unambiguous tables of 2..12 samples (a few per run of 13..48 samples and 700..5000 rows or 3..12 samples and 12000..20000 rows, and of 256..300 samples with rows present in exactly 255/256/257 of them; all bases; constant rows, which the program pre-filters and adds back; '
+RULE = ('Cases: unambiguous tables of 2..12 samples (a few per run of 13..48 samples and 700..5000 rows or 3..12 samples and 12000..20000 rows, and of 256..520 samples with rows present in exactly 255/256/257 of them; all bases; constant rows, which the program pre-filters and adds back; '
         'rows with gaps in every missingness pattern; duplicated samples; rows below a frequency threshold next to rows above '
         'it in >=3 samples) constructed through `ska build`, and planted-SNP genome sets.  `ska distance [--min-freq j/n or 0.3/0.45/0.6/0.85] '
         '[--allow-ambiguous] [--threads 1|2|4]` is compared with the model in exact rationals: SNPs = rows present in both and '
@@ -22,7 +23,7 @@ ASSUMPTIONS = ['tables hold only A/C/G/T and gaps (the statement is about files 
                'min-freq passed as a short decimal; exact rational used by the oracle']
 REQUIRED = {t: ['minfreq_drops_rows_with_3plus_samples', 'constant_rows', 'identical_sample_pairs', 'permutation_checked',
                 'threads:1', 'threads:2', 'threads:4', 'allow_ambiguous', 'pairs_checked',
-                'history:delete', 'history:merge', 'history_allow_ambiguous_minfreq_drops', 'large_tables', 'tables_over_8192_rows', 'tables_of_256+_samples', 'files_with_a_repeated_sample_name'] for t in ('quick', 'thorough')}
+                'history:delete', 'history:merge', 'history_allow_ambiguous_minfreq_drops', 'large_tables', 'tables_over_8192_rows', 'tables_of_256+_samples', 'files_with_a_repeated_sample_name', 'files_under_a_bare_name_next_to_a_sibling', 'tables_of_513+_samples'] for t in ('quick', 'thorough')}
 
 
 def builds(tier):
@@ -44,8 +45,8 @@ def plan(tier, seed, rng, scale):
                                   'kind': 'table', 'nrows': nr})
     for i in range(int((3 if tier == 'quick' else 12) * max(scale, 0.34))):
         # hundreds of samples: per-row tallies beyond 255, tens of thousands of pairs
-        descs.insert(10 + 5 * i, {'ns': [257, 256, 300, 258][i % 4], 'k': rng.choice([15, 31, 33]), 'seed': rng.getrandbits(32), 'kind': 'table',
-                                  'nrows': rng.randint(20, 50), 'crowd': True})
+        descs.insert(10 + 5 * i, {'ns': [257, 514, 300, 256, 520, 258][i % 6], 'k': rng.choice([15, 31, 33]), 'seed': rng.getrandbits(32), 'kind': 'table',
+                                  'nrows': rng.randint(8, 20), 'crowd': True})
     for i, d in enumerate(descs):
         d['chk'] = (i % 6 == 0) and not d.get('nrows')
     return descs
@@ -165,6 +166,8 @@ def run_case(desc, ctx):
                     alle = rng.choice(['A', 'AC'])
                     rows[arms] = [rng.choice(alle) if i in idx else '-' for i in range(ns)]
             res.count('tables_of_256+_samples')
+            if ns > 512:
+                res.count('tables_of_513+_samples')
         fns = G.write_table_samples(ctx, rows, k, ns)
     res.see('nsamples', ns)
     res.see('k', k)
@@ -274,6 +277,24 @@ def run_case(desc, ctx):
                         raise AssertionError('model inconsistency')
             if any(e[2] > 0 and 0 < e[3] < 1 for e in exp):
                 res.nontrivial.append(fingerprint([k, rows, mf, aa, thr]))
+            if desc['seed'] % 5 == 2 and not dup and (mf, aa, thr) == settings[0]:
+                # the file under a bare name, next to a VALID but different file called <name>.skf of the other integer width
+                shutil.copy(ctx.path('t.skf'), ctx.path('panel'))
+                k2 = 15 if k > 31 else 41
+                G.write_fa(ctx.path('sib.fa'), [G.rseq(rng, 3 * k2)])
+                G.write_fa(ctx.path('sib2.fa'), [G.rseq(rng, 3 * k2)])
+                if G.ska_build(ctx, ctx.path('panel'), [ctx.path('sib.fa'), ctx.path('sib2.fa')], k2, True, binary=b).returncode == 0:
+                    ab = ctx.sh(b, 'distance', ctx.path('panel'), *args)
+                    res.evals += 1
+                    try:
+                        badb = compare(parse_dist(ab.stdout), exp) if ab.returncode == 0 else ['exit %d' % ab.returncode]
+                    except (ValueError, IndexError) as e:
+                        badb = ['unparsable: %s' % e]
+                    if badb:
+                        res.violate('C14:bare-name', 'k=%d: `ska distance panel` (a file without suffix, next to another file panel.skf built with k=%d) does not report the distances of the file named: %s'
+                                    % (k, k2, '; '.join(badb[:2])), {'rows': rows, 'args': args})
+                    else:
+                        res.count('files_under_a_bare_name_next_to_a_sibling')
             if hist:
                 # same content, different history; written with -o over an existing longer file
                 out = G.stale_file(ctx, 'stale.dist')
